@@ -70,9 +70,79 @@ macro_rules! span_mod {
 
 type ErasedArc = std::sync::Arc<dyn emit::ctxt::ErasedCtxt + Send + Sync>;
 
+/// The most minimal context a user of the library can write: only the required methods, the trait's defaults for
+/// `open_push` / `open_disabled` (which prepend the new properties to the current ones), properties stored in the
+/// order given. A key pushed by an inner frame therefore appears twice, innermost first - which `Props` allows,
+/// defining the first value as the one that counts.
+pub mod chain {
+    use std::{cell::RefCell, collections::HashMap, ops::ControlFlow, sync::atomic::{AtomicUsize, Ordering}};
+
+    use emit::{value::OwnedValue, Ctxt, Props, Str, Value};
+
+    static NEXT_ID: AtomicUsize = AtomicUsize::new(1);
+
+    thread_local! {
+        static ACTIVE: RefCell<HashMap<usize, Vec<(String, OwnedValue)>>> = RefCell::new(HashMap::new());
+    }
+
+    #[derive(Clone)]
+    pub struct ChainCtxt {
+        id: usize,
+    }
+
+    impl ChainCtxt {
+        pub fn new() -> Self {
+            ChainCtxt {
+                id: NEXT_ID.fetch_add(1, Ordering::Relaxed),
+            }
+        }
+    }
+
+    pub struct ChainProps(Vec<(String, OwnedValue)>);
+
+    impl Props for ChainProps {
+        fn for_each<'kv, F: FnMut(Str<'kv>, Value<'kv>) -> ControlFlow<()>>(&'kv self, mut for_each: F) -> ControlFlow<()> {
+            for (k, v) in &self.0 {
+                for_each(Str::new_ref(k), v.by_ref())?;
+            }
+            ControlFlow::Continue(())
+        }
+    }
+
+    impl Ctxt for ChainCtxt {
+        type Current = ChainProps;
+        type Frame = ChainProps;
+
+        fn open_root<P: Props>(&self, props: P) -> Self::Frame {
+            let mut all = Vec::new();
+            let _ = props.for_each(|k, v| {
+                all.push((k.to_string(), v.to_owned()));
+                ControlFlow::Continue(())
+            });
+            ChainProps(all)
+        }
+
+        fn enter(&self, frame: &mut Self::Frame) {
+            ACTIVE.with(|a| std::mem::swap(a.borrow_mut().entry(self.id).or_default(), &mut frame.0));
+        }
+
+        fn with_current<R, F: FnOnce(&Self::Current) -> R>(&self, with: F) -> R {
+            let current = ACTIVE.with(|a| ChainProps(a.borrow().get(&self.id).cloned().unwrap_or_default()));
+            with(&current)
+        }
+
+        fn exit(&self, frame: &mut Self::Frame) {
+            ACTIVE.with(|a| std::mem::swap(a.borrow_mut().entry(self.id).or_default(), &mut frame.0));
+        }
+
+        fn close(&self, _: Self::Frame) {}
+    }
+}
+
 span_mod!(plain, false, ThreadLocalCtxt, ThreadLocalCtxt::new(), "concrete");
 span_mod!(tp, true, TraceparentCtxt<ThreadLocalCtxt>, TraceparentCtxt::new(ThreadLocalCtxt::new()), "concrete");
 span_mod!(plain_erased, false, super::ErasedArc, std::sync::Arc::new(ThreadLocalCtxt::new()), "erased (Arc<dyn ErasedCtxt + Send + Sync>)");
+span_mod!(plain_chain, false, super::chain::ChainCtxt, super::chain::ChainCtxt::new(), "custom minimal context (default open_push, repeated keys)");
 span_mod!(
     tp_erased,
     true,
@@ -117,14 +187,17 @@ impl Engine for CtxSpans {
 
     fn run(&self, ch: &mut Choices, ctx: &RunCtx) -> Outcome {
         // a third of the runs hold the context type-erased, the way `emit::setup().init()` runtimes do
-        let erased = ch.chance(1, 3);
-        match (self.focus, erased) {
-            ("C18", false) => tp::run(ch, ctx, "C18"),
-            ("C18", true) => tp_erased::run(ch, ctx, "C18"),
-            ("C05", false) => plain::run(ch, ctx, "C05"),
-            ("C05", true) => plain_erased::run(ch, ctx, "C05"),
-            (_, false) => plain::run(ch, ctx, "C04"),
-            (_, true) => plain_erased::run(ch, ctx, "C04"),
+        // ... and a sixth of the plain runs use a minimal user-written context instead of ThreadLocalCtxt
+        let held = ch.weighted(&[3, 2, 1]); // 0 concrete, 1 erased, 2 custom
+        match (self.focus, held) {
+            ("C18", 0) | ("C18", 2) => tp::run(ch, ctx, "C18"),
+            ("C18", _) => tp_erased::run(ch, ctx, "C18"),
+            ("C05", 0) => plain::run(ch, ctx, "C05"),
+            ("C05", 1) => plain_erased::run(ch, ctx, "C05"),
+            ("C05", _) => plain_chain::run(ch, ctx, "C05"),
+            (_, 0) => plain::run(ch, ctx, "C04"),
+            (_, 1) => plain_erased::run(ch, ctx, "C04"),
+            (_, _) => plain_chain::run(ch, ctx, "C04"),
         }
     }
 }
